@@ -121,13 +121,20 @@ def run_case(case, pname, variant, occ=0):
     return problems, drifts
 
 
+def _job(j):
+    ci, case, pname, variant = j
+    return run_case(case, pname, variant, occ=ci)
+
+
 def check_cases(chk, cases, profiles, full):
     variants = [{}, {'buffersize': 1}, {'buffersize': 2, 'cache': False}, {'presorted': True}]
+    jobs = []
     for ci, case in enumerate(cases):
         combos = [(p, v) for p in profiles for v in variants] if full else \
             [(profiles[ci % len(profiles)], {}), (profiles[(ci + 1) % len(profiles)], variants[1 + ci % 3])]
-        for pname, variant in combos:
-            probs, drifts = run_case(case, pname, variant, occ=ci)
+        jobs += [(ci, case, pname, variant) for pname, variant in combos]
+    for (ci, case, pname, variant), (probs, drifts) in zip(jobs, common.pmap(_job, jobs)):
+        if True:
             chk.count(('dedup', ci, pname, json.dumps(variant, sort_keys=True)))
             chk.replayed += 1
             for p in probs:
